@@ -52,15 +52,30 @@ type Tree struct {
 	Files      []File   `json:"files"` //
 	IncludeExt []string `json:"include_ext,omitempty"`
 	TopSize    int      `json:"top_size"`
-	DirForm    int      `json:"dir_form"` // 0 NAME, 1 absolute path, 2 NAME/, 3 ./NAME
+	DirForm    int      `json:"dir_form"` // 0 NAME, 1 absolute path, 2 NAME/, 3 ./NAME, 4 "." (cwd = the tree), 5 up/NAME (tree one level down), 6 ../NAME (cwd = a sibling directory)
+	// ArgStyle: spelling of the command line. bit 0: flags before DIR; bits 1-2: include-ext as
+	// "--include-ext a,b" (0), "-i a,b" (1), "--include-ext=a,b" (2), one --include-ext per value (3);
+	// bit 3: --top-size=N instead of --top-size N.
+	ArgStyle int `json:"arg_style,omitempty"`
+	// Second, when set, is reported after this tree by a second invocation in the same working
+	// directory (so the coca_reporter directory of the first run is still there).
+	Second *Tree `json:"second,omitempty"`
 }
 
 type Sweep struct {
 	Trees []Tree `json:"trees"`
 }
 
-var langExt = map[string]string{"Java": "java", "Go": "go", "Python": "py", "JavaScript": "js", "Kotlin": "kt"}
-var allLangs = []string{"Java", "Go", "Python", "JavaScript", "Kotlin"}
+var langExt = map[string]string{"Java": "java", "Go": "go", "Python": "py", "JavaScript": "js", "Kotlin": "kt",
+	"C": "c", "C Header": "h", "C++": "cpp", "C#": "cs", "TypeScript": "ts", "Ruby": "rb", "Rust": "rs", "Shell": "sh"}
+
+// the first five are the original pool (shrinking moves towards them); the others bring language
+// names that are prefixes of one another (C, C Header, C++, C#; Java, JavaScript; TypeScript) and
+// names with blanks and symbols into the header.
+var allLangs = []string{"Java", "Go", "Python", "JavaScript", "Kotlin", "C", "C Header", "C++", "C#", "TypeScript", "Ruby", "Rust", "Shell"}
+
+// hashLangs: languages whose only comment form is the hash line comment.
+var hashLangs = map[string]bool{"Python": true, "Ruby": true, "Shell": true}
 var ignoredNames = []string{".git", ".svn", ".hg", ".idea", "coca_reporter"}
 
 func isIgnoredName(n string) bool {
@@ -80,6 +95,14 @@ var codeTemplates = map[string][]string{
 	"Python":     {"%s = 1", "def %s(a, b):", "    return %s + 1", "if %s < 3:", "pass", "import %s", "%s.run()"},
 	"JavaScript": {"var %s = 1;", "function %s(a) {", "}", "return %s - 2;", "if (%s < 3) {", "%s.run();", "let %s = [1, 2];"},
 	"Kotlin":     {"val %s = 1", "fun %s(a: Int): Int {", "}", "return %s + 1", "if (%s < 3) {", "%s.run()", "var %s: Int = 2"},
+	"C":          {"int %s = 1;", "int %s(void) {", "}", "return %s + 1;", "if (%s < 3) {", "%s++;", "%s();"},
+	"C Header":   {"int %s(void);", "extern int %s;", "struct %s;", "typedef int %s;", "void %s(int a, int b);"},
+	"C++":        {"int %s = 1;", "class %s {", "};", "return %s + 1;", "if (%s < 3) {", "%s++;", "namespace %s {", "%s.run();"},
+	"C#":         {"int %s = 1;", "class %s {", "}", "return %s + 1;", "if (%s < 3) {", "%s++;", "using %s;", "%s.Run();"},
+	"TypeScript": {"let %s = 1;", "function %s(a: number) {", "}", "return %s - 2;", "if (%s < 3) {", "%s.run();", "const %s = [1, 2];"},
+	"Ruby":       {"%s = 1", "def %s(a, b)", "end", "return %s + 1", "if %s < 3", "%s.run", "puts %s"},
+	"Rust":       {"let %s = 1;", "fn %s(a: i32) -> i32 {", "}", "return %s + 1;", "if %s < 3 {", "%s.run();", "let mut %s = 2;"},
+	"Shell":      {"%s=1", "echo $%s", "fi", "done", "if [ $%s -lt 3 ]; then", "cd %s", "export %s"},
 }
 
 func genWords(t *rapid.T, label string) string {
@@ -88,6 +111,17 @@ func genWords(t *rapid.T, label string) string {
 
 func genLines(t *rapid.T, lang string) []Line {
 	n := rapid.IntRange(0, 9).Draw(t, "nLines")
+	// now and then a longer file, so that per-file figures have two or three digits
+	switch rapid.IntRange(0, 15).Draw(t, "longFile") {
+	case 13, 14:
+		n = rapid.IntRange(10, 40).Draw(t, "nLinesLong")
+	case 15:
+		n = rapid.IntRange(95, 130).Draw(t, "nLinesVeryLong")
+	}
+	return genLinesN(t, lang, n)
+}
+
+func genLinesN(t *rapid.T, lang string, n int) []Line {
 	var out []Line
 	for len(out) < n {
 		switch k := rapid.IntRange(0, 9).Draw(t, "lineKind"); {
@@ -104,7 +138,7 @@ func genLines(t *rapid.T, lang string) []Line {
 			out = append(out, Line{kindCode, indent + text})
 		case k <= 6: // whole-line comment
 			indent := rapid.SampledFrom([]string{"", "", "  ", "\t"}).Draw(t, "cindent")
-			if lang == "Python" {
+			if hashLangs[lang] {
 				out = append(out, Line{kindComment, indent + "#" + rapid.SampledFrom([]string{" ", "", "  "}).Draw(t, "csp") + genWords(t, "ctext")})
 				break
 			}
@@ -129,7 +163,7 @@ func genLines(t *rapid.T, lang string) []Line {
 	return out
 }
 
-var stems = []string{"a", "b", "Main", "util", "x1", "Foo", "bar_baz", "T", "mod", "App"}
+var stems = []string{"a", "b", "Main", "util", "x1", "Foo", "bar_baz", "T", "mod", "App", "v1.x", "my file"}
 
 type dirFiller struct {
 	t     *rapid.T
@@ -138,6 +172,11 @@ type dirFiller struct {
 }
 
 func (f dirFiller) add(dir, lang string) {
+	f.addLines(dir, lang, -1)
+}
+
+// addLines adds one file of the language to dir; n < 0 = a length drawn by genLines.
+func (f dirFiller) addLines(dir, lang string, n int) {
 	stem := rapid.SampledFrom(stems).Draw(f.t, "stem")
 	name := ""
 	for i := 0; ; i++ {
@@ -155,7 +194,12 @@ func (f dirFiller) add(dir, lang string) {
 	if dir != "" {
 		path = dir + "/" + name
 	}
-	file := File{Path: path, Lang: lang, Lines: genLines(f.t, lang)}
+	file := File{Path: path, Lang: lang}
+	if n < 0 {
+		file.Lines = genLines(f.t, lang)
+	} else {
+		file.Lines = genLinesN(f.t, lang, n)
+	}
 	if n := len(file.Lines); n > 0 && file.Lines[n-1].Kind != kindBlank {
 		file.NoFinalNewline = rapid.IntRange(0, 5).Draw(f.t, "noFinalNewline") == 0
 	}
@@ -165,8 +209,18 @@ func (f dirFiller) add(dir, lang string) {
 	*f.files = append(*f.files, file)
 }
 
-var plainDirNames = []string{"a", "b", "src", "lib", "pkg", "core", "v1.2", "x.json", "Docs", "test_data", "m-1", ".cfg", "cloc", "tree", "x", ".github", "coca_reporter_old", "idea", ".hgx", ".svn2"}
-var nestedNames = []string{"n1", "inner", "x", "sub.d"}
+// plainDirNames: ordinary directory names. Among them: dotted and hidden names, names that extend
+// or end in an ignored name without being one (coca_reporter_old, my_coca_reporter, old.idea, idea,
+// .hgx, .svn2), names that differ only in letter case, a name with a blank, a non-ASCII name, names
+// of the tool's own report files. (Names ending in .git/.hg/.svn are left out: scc's deny list
+// matches by suffix.)
+var plainDirNames = []string{"a", "b", "src", "lib", "pkg", "core", "v1.2", "x.json", "Docs", "test_data", "m-1", ".cfg", "cloc", "tree", "x", ".github", "coca_reporter_old", "idea", ".hgx", ".svn2",
+	"docs", "A", "my dir", "d\u00f6nner", "old.idea", "my_coca_reporter", "base_cloc", "cloc.csv", "x.json.json", "java"}
+
+// nestedNames: names of directories below an immediate subdirectory. .idea and coca_reporter are
+// ignored only as immediate subdirectories: deeper down they are ordinary directories whose files
+// count for the row of the subdirectory they are in. a, b, src, lib also occur as immediate ones.
+var nestedNames = []string{"n1", "inner", "x", "sub.d", "a", "b", "src", "lib", ".idea", "coca_reporter"}
 
 // fillSubdir puts 1..4 files into subdirectory name, some of them nested one to three levels deep.
 func fillSubdir(t *rapid.T, tr *Tree, f dirFiller, name string, langs []string) {
@@ -187,6 +241,14 @@ func fillSubdir(t *rapid.T, tr *Tree, f dirFiller, name string, langs []string) 
 		lang := langs[(off+rapid.IntRange(0, k-1).Draw(t, "langInDir"))%len(langs)]
 		f.add(dir, lang)
 	}
+	// now and then many small files of one language in one place: more files than any --top-size
+	if rapid.IntRange(0, 19).Draw(t, "manyFiles") == 19 {
+		m := rapid.IntRange(9, 33).Draw(t, "nMany")
+		lang := rapid.SampledFrom(langs).Draw(t, "manyLang")
+		for i := 0; i < m; i++ {
+			f.addLines(name, lang, rapid.IntRange(0, 6).Draw(t, "nLinesMany"))
+		}
+	}
 }
 
 func addDir(tr *Tree, d string) {
@@ -198,35 +260,65 @@ func addDir(tr *Tree, d string) {
 	tr.Dirs = append(tr.Dirs, d)
 }
 
+// genLangs: 2..5 languages; a permutation of the pool, so that shrinking moves towards the first ones.
 func genLangs(t *rapid.T) []string {
 	k := rapid.IntRange(2, 5).Draw(t, "nLangs")
 	perm := rapid.Permutation(allLangs).Draw(t, "langPerm")
 	return perm[:k]
 }
 
-func genOptions(t *rapid.T, tr *Tree) {
-	tr.Name = rapid.SampledFrom([]string{"tree", "t", "src", "proj-1", "java"}).Draw(t, "treeName")
-	tr.TopSize = rapid.SampledFrom([]int{1, 2, 3, 30}).Draw(t, "topSize")
-	tr.DirForm = rapid.SampledFrom([]int{0, 0, 1, 2, 3}).Draw(t, "dirForm")
+func genOptions(t *rapid.T, tr *Tree, langs []string) {
+	tr.Name = rapid.SampledFrom([]string{"tree", "t", "src", "proj-1", "java", "my proj", "coca_reporter", "cloc"}).Draw(t, "treeName")
+	tr.TopSize = rapid.SampledFrom([]int{1, 2, 3, 30, 0, 4, 5, 7, 10}).Draw(t, "topSize")
+	tr.DirForm = rapid.SampledFrom([]int{0, 0, 1, 2, 3, 4, 5, 6}).Draw(t, "dirForm")
 	if rapid.IntRange(0, 3).Draw(t, "useIncludeExt") == 0 {
 		n := rapid.IntRange(1, 3).Draw(t, "nExt")
-		perm := rapid.Permutation(allLangs).Draw(t, "extPerm")
-		for _, l := range perm[:n] {
-			tr.IncludeExt = append(tr.IncludeExt, langExt[l])
+		// mostly extensions of the tree's languages, now and then one that no file has
+		pool := append([]string{}, langs...)
+		if rapid.IntRange(0, 3).Draw(t, "foreignExt") == 0 {
+			pool = append(pool, rapid.SampledFrom(allLangs).Draw(t, "foreignLang"))
 		}
+		perm := rapid.Permutation(pool).Draw(t, "extPerm")
+		seen := map[string]bool{}
+		for _, l := range perm {
+			if len(tr.IncludeExt) < n && !seen[l] {
+				seen[l] = true
+				tr.IncludeExt = append(tr.IncludeExt, langExt[l])
+			}
+		}
+	}
+	if rapid.IntRange(0, 2).Draw(t, "respell") == 0 {
+		tr.ArgStyle = rapid.IntRange(0, 15).Draw(t, "argStyle")
 	}
 }
 
 // genShape builds a tree with nCounted non-empty ordinary subdirectories, the given ignored
-// directory names, nEmpty empty subdirectories and nRoot files in the root.
-func genShape(t *rapid.T, nCounted int, ignored []string, nEmpty, nRoot int) Tree {
+// directory names, nEmpty empty subdirectories and nRoot files in the root. prefer lists directory
+// names to use first (those of an earlier tree reported in the same working directory).
+func genShape(t *rapid.T, nCounted int, ignored []string, nEmpty, nRoot int, prefer []string) Tree {
 	tr := Tree{Dirs: []string{}, Files: []File{}}
-	genOptions(t, &tr)
 	langs := genLangs(t)
+	genOptions(t, &tr, langs)
 	f := dirFiller{t: t, used: map[string]bool{}, files: &tr.Files}
 	names := rapid.Permutation(plainDirNames).Draw(t, "dirNames")
+	if len(prefer) > 0 {
+		seen := map[string]bool{}
+		var merged []string
+		for _, n := range append(append([]string{}, prefer...), names...) {
+			if !seen[n] && !isIgnoredName(n) {
+				seen[n] = true
+				merged = append(merged, n)
+			}
+		}
+		names = merged
+	}
 	for i := 0; i < nCounted; i++ {
 		addDir(&tr, names[i])
+		if rapid.IntRange(0, 11).Draw(t, "onlyUnknownFiles") == 11 {
+			// a subdirectory that holds nothing the counter knows
+			tr.Files = append(tr.Files, File{Path: names[i] + "/data.xyz", Lines: []Line{{kindCode, "not a source file"}}})
+			continue
+		}
 		fillSubdir(t, &tr, f, names[i], langs)
 	}
 	for i := 0; i < nEmpty; i++ {
@@ -236,8 +328,22 @@ func genShape(t *rapid.T, nCounted int, ignored []string, nEmpty, nRoot int) Tre
 		addDir(&tr, ig)
 		n := rapid.IntRange(0, 2).Draw(t, "nFilesInIgnored")
 		for i := 0; i < n; i++ {
-			// any of the five languages: a language that occurs only here is "optional" in the header
-			f.add(ig, rapid.SampledFrom(allLangs).Draw(t, "ignoredLang"))
+			// one of the tree's languages, or (while the tree stays within five languages, above
+			// which the tool prints no top-file table) another one: a language that occurs only
+			// here is "optional" in the header
+			pool := langs
+			if len(langs) < 5 {
+				pool = allLangs[:5]
+			}
+			l := rapid.SampledFrom(pool).Draw(t, "ignoredLang")
+			if !containsStr(langs, l) {
+				if len(langs) >= 5 {
+					l = langs[0]
+				} else {
+					langs = append(append([]string{}, langs...), l)
+				}
+			}
+			f.add(ig, l)
 		}
 		if rapid.IntRange(0, 3).Draw(t, "noiseInIgnored") == 0 {
 			tr.Files = append(tr.Files, File{Path: ig + "/HEAD", Lines: []Line{{kindCode, "ref"}}})
@@ -252,18 +358,62 @@ func genShape(t *rapid.T, nCounted int, ignored []string, nEmpty, nRoot int) Tre
 	return tr
 }
 
-func genTree(t *rapid.T) Tree {
-	nCounted := rapid.IntRange(0, 5).Draw(t, "nCounted")
-	var ignored []string
+func containsStr(list []string, s string) bool {
+	for _, x := range list {
+		if x == s {
+			return true
+		}
+	}
+	return false
+}
+
+func genCounts(t *rapid.T) (nCounted int, ignored []string, nEmpty, nRoot int) {
+	nCounted = rapid.IntRange(0, 5).Draw(t, "nCounted")
 	nIgn := rapid.SampledFrom([]int{0, 0, 1, 1, 1, 2, 3}).Draw(t, "nIgnored")
 	perm := rapid.Permutation(ignoredNames).Draw(t, "ignoredPerm")
 	ignored = perm[:nIgn]
-	nEmpty := rapid.SampledFrom([]int{0, 0, 0, 1, 1, 2}).Draw(t, "nEmpty")
+	nEmpty = rapid.SampledFrom([]int{0, 0, 0, 1, 1, 2}).Draw(t, "nEmpty")
 	for nCounted+nIgn+nEmpty > 6 {
 		nCounted--
 	}
-	nRoot := rapid.SampledFrom([]int{0, 0, 1, 2}).Draw(t, "nRoot")
-	return genShape(t, nCounted, ignored, nEmpty, nRoot)
+	// now and then a wide tree
+	if rapid.IntRange(0, 14).Draw(t, "wide") == 14 {
+		nCounted = rapid.IntRange(7, 12).Draw(t, "nCountedWide")
+	}
+	nRoot = rapid.SampledFrom([]int{0, 0, 1, 2}).Draw(t, "nRoot")
+	return
+}
+
+func genTree(t *rapid.T) Tree {
+	nCounted, ignored, nEmpty, nRoot := genCounts(t)
+	tr := genShape(t, nCounted, ignored, nEmpty, nRoot, nil)
+	// a quarter of the cases: a second report in the same working directory, either of the same
+	// tree under other options or of another tree that shares directory names with the first
+	if tr.DirForm != 4 {
+		switch rapid.IntRange(0, 7).Draw(t, "second") {
+		case 6:
+			sec := tr
+			sec.Second = nil
+			sec.IncludeExt = nil
+			langs := tr.languages()
+			if len(langs) > 0 && rapid.IntRange(0, 2).Draw(t, "secondExt") > 0 {
+				sec.IncludeExt = []string{langExt[rapid.SampledFrom(langs).Draw(t, "secondExtLang")]}
+			}
+			sec.TopSize = rapid.SampledFrom([]int{1, 2, 3, 30, 0, 5}).Draw(t, "secondTopSize")
+			tr.Second = &sec
+		case 7:
+			nCounted, ignored, nEmpty, nRoot := genCounts(t)
+			sec := genShape(t, nCounted, ignored, nEmpty, nRoot, tr.immediateSubdirs())
+			if sec.DirForm == 4 {
+				sec.DirForm = 0
+			}
+			if sec.Name == tr.Name {
+				sec.Name += "2"
+			}
+			tr.Second = &sec
+		}
+	}
+	return tr
 }
 
 // genSweep: one tree for every combination of (0..3 counted subdirectories) x (ignored name
@@ -280,7 +430,7 @@ func genSweep(t *rapid.T) Sweep {
 					ignored = []string{ignoredNames[(rot+i)%len(ignoredNames)]}
 					i++
 				}
-				s.Trees = append(s.Trees, genShape(t, n, ignored, emp, rapid.IntRange(0, 1).Draw(t, "nRoot")))
+				s.Trees = append(s.Trees, genShape(t, n, ignored, emp, rapid.IntRange(0, 1).Draw(t, "nRoot"), nil))
 			}
 		}
 	}
